@@ -1139,7 +1139,7 @@ class Interp:
         if isinstance(target, ast.Name):
             self.assign_name(target.id, v, env)
         elif isinstance(target, ast.Attribute):
-            self.set_attr(self.eval(target.value, env), target.attr, v, target)
+            self.engine.setattr_(self, self.eval(target.value, env), target.attr, v, target)
         elif isinstance(target, ast.Subscript):
             obj = self.eval(target.value, env)
             idx = self.eval(target.slice, env)
